@@ -31,6 +31,23 @@ SortLaw(r, ob) ==
          (v.t = "list" /\ Comparable(v.s))
            => (ob.out.o = "ok" /\ ob.out.v.t = "list" /\ IsSorted(ob.out.v.s) /\ IsPerm(v.s, ob.out.v.s))
 
+(* laws attached to a case by its generator (the defining equations of C14) *)
+LawOf(r) == IF "extra" \in DOMAIN r /\ "law" \in DOMAIN r.extra THEN r.extra.law ELSE "none"
+LawOk(r, ob) ==
+    LET law == LawOf(r) IN
+    CASE law = "istrue" -> ob.out.o = "ok" /\ ob.out.v = VTrue
+      [] law = "true-or-err" -> (ob.out.o = "ok" /\ ob.out.v = VTrue) \/ ob.out.o = "err"
+      [] law = "istrue-or-arith-err" -> (ob.out.o = "ok" /\ ob.out.v = VTrue) \/ ob.out.o = "err"
+      [] law = "rematch" -> ob.out.o = "ok" /\ ob.out.v = VBool(ReSearch(r.extra.re, r.bind.s.s))
+      [] law = "reerr" -> ob.out.o = "err"
+      [] law = "recapture" ->
+            IF ReSearch(r.extra.re, r.bind.s.s)
+            THEN /\ ob.out.o = "ok" /\ ob.out.v.t = "list" /\ Len(ob.out.v.s) >= 1 /\ ob.out.v.s[1].t = "str"
+                 /\ IsSubstring(ob.out.v.s[1].s, r.bind.s.s) /\ ReFull(r.extra.re, ob.out.v.s[1].s)
+            ELSE ob.out.o = "ok" /\ ob.out.v = VNull
+      [] law = "dblstr" -> ob.out.o = "ok" /\ ob.out.v.t = "str" /\ ConvDouble(ob.out.v) = Ok(r.bind.x)
+      [] OTHER -> TRUE
+
 (* cases marked "same": every form must give one and the same outcome (C07: one fixed map order) *)
 SameLaw(r) == ("extra" \in DOMAIN r /\ "same" \in DOMAIN r.extra) => \A i, j \in 1..Len(r.obs) : r.obs[i].out = r.obs[j].out
 
@@ -43,7 +60,7 @@ Init == l = 1 /\ nbad = 0 /\ nsingle = 0 /\ nany = 0
 Step == /\ l <= Len(Rec)
         /\ LET r == Rec[l]
                e == Expect(r)
-               badObs == {i \in 1..Len(r.obs) : ~ObsOk(r.obs[i], e) \/ ~SortLaw(r, r.obs[i]) \/ (i = 1 /\ ~SameLaw(r))}
+               badObs == {i \in 1..Len(r.obs) : ~ObsOk(r.obs[i], e) \/ ~SortLaw(r, r.obs[i]) \/ (i = 1 /\ ~SameLaw(r)) \/ (~OnlyCrash /\ ~LawOk(r, r.obs[i]))}
            IN /\ nbad' = nbad + Cardinality(badObs)
               /\ nsingle' = nsingle + (IF e.o.o \in {"ok", "err"} /\ (e.o.o = "err" => e.o.c # "either") THEN 1 ELSE 0)
               /\ nany' = nany + (IF e.o.o = "any" THEN 1 ELSE 0)
